@@ -17,6 +17,7 @@ package storage
 import (
 	"bytes"
 	"context"
+	encoding "encoding/binary"
 	"os"
 	"path/filepath"
 	"time"
@@ -165,6 +166,12 @@ func (s *SSD) Query(ssid message.Ssid, from, until time.Time, startFromID messag
 // OnSurvey handles an incoming cluster lookup request.
 func (s *SSD) OnSurvey(surveyType string, payload []byte) ([]byte, bool) {
 	if surveyType != "ssdstore" {
+		return nil, false
+	}
+
+	// The request starts with the number of SSID elements, each of which takes at least one
+	// byte: refuse a number the payload cannot hold before the decoder allocates that many.
+	if count, n := encoding.Uvarint(payload); n <= 0 || count > uint64(len(payload)) {
 		return nil, false
 	}
 
